@@ -3,7 +3,7 @@ import re
 
 from .lib import (ITER_PLUMBING, PLUMBING, borrow_root, callee_allow, callers, closure_args_of_call, element_sources, lit_strs, operand_local)
 from . import absint as _A
-from .lib_c07 import OTHER, decide_string_tables, path_states, variant_table
+from .lib_c07 import OTHER, decide_object_schema, decide_string_tables, fn_items_reaching, path_states, variant_table
 from .lib_c12 import (STATUS_PATH, TO_STRING, Origin, agg_field_op, closure_captures, coded_impls, const_bool_operand, const_val, direct_element_sources, eval_bool_paths, field_sources, from_impls, norm_ty, op_const_path,
                       only_plumbing, params_of_type, ret_ok_sites, self_of_call)
 
@@ -33,8 +33,16 @@ EXPLANATION = ("SIBLINGS-AGREE on generic arguments of get_metadata / make_subsc
 TRUSTED = ["rustc nightly MIR construction + const evaluation", "mirfacts extractor", "rules/engine.py slices, dominators", "schemars derive + serde derive agree on field names",
            "openapiv3 serialisation", "C12 (status table, JSON serialisation)", "rules/absint.py interpreter + rules/lib_c07.py summaries of array iteration (into_iter / next / find / find_map)"]
 
-DESER = r"^http_util::http_extract_path_params$|^serde_urlencoded::from_str$|^serde_path_to_error::deserialize$|^serde_json::from_(slice|str|reader)$"
+DESER = r"^http_util::http_extract_path_params$|^serde_urlencoded::from_(str|bytes|reader)$|^serde_path_to_error::deserialize$|^serde_json::from_(slice|str|reader)$"
+# ways the optional query string of the URI is handed to the deserialiser as it is: a default for "no query string", the same text as bytes,
+# the whole of it as a slice
+QUERY_AS_IS = [r"^http::Uri::query$", r"RequestInfo::uri$", r"Option::<T>::(unwrap_or|unwrap_or_default|map_or|map)$", r"str::<impl str>::as_bytes$",
+               r"ops::Index::index$"]
 MEDIA_JSON = "http_util::CONTENT_TYPE_JSON"
+# the private carrier of a shared error response in gen_openapi (a struct of module api_description with fields name / reference / response),
+# wherever it is declared
+ERROR_RESPONSE_ADT = r"^api_description::"
+ERROR_RESPONSE_FIELDS = {"name", "reference", "response"}
 CT_ADT = "api_description::ApiEndpointBodyContentType"
 
 
@@ -78,6 +86,13 @@ def _fnitems(f):
     return out
 
 
+def _self_ty(t):
+    """Self type of a trait-method call: the first generic argument of the resolved callee (for a call inlined from a generic helper the
+    engine has substituted the helper's type parameters there, while the printed path still shows the helper's parameter name)."""
+    ga = [g for g in (t.get("gargs") or []) if not g.startswith("'")]
+    return norm_ty(ga[0]) if ga else self_of_call(t)
+
+
 def _last_garg(t):
     ga = [g for g in (t.get("gargs") or []) if not g.startswith("'")]
     return norm_ty(ga[-1]) if ga else None
@@ -96,6 +111,69 @@ def _deser_calls(ds, g, op, depth=0):
                 if any(c is g for c, node in closure_args_of_call(h, t)):
                     out += _deser_calls(ds, h, t["args"][0], depth + 1)
     return out
+
+
+MEMBER_MD = r"extractor::common::\w+Extractor::metadata$"
+# ways of turning a list literal into the iterator that visits every element of it once
+WHOLE_LIST_ITER = [r"slice::<impl \[T\]>::iter$", r"iter::IntoIterator::into_iter$", r"vec::Vec::<T, A>::iter$", r"iter::Iterator::(copied|cloned)$"]
+APPEND = r"vec::Vec::<T, A>::(append|extend)$|iter::Extend::extend$"
+
+
+def _member_sites(ds, md):
+    """Where a tuple's metadata() computes the metadata of its members: [(fn, bb, call, [member types], via)].  A member is named by a direct
+    call `<M as _Extractor>::metadata(..)`, or it is a function item `<M as _Extractor>::metadata` that reaches an indirect call — as the
+    called value itself or as an element of the list the called value is drawn from (via = [(fn, iterator operand, how, the list is
+    iterated as a whole)]: a loop over / a fold of a list of the members' metadata functions documents every member on the list)."""
+    out = []
+    for h in [md] + ds.descendants(md):
+        for bb, t in h.live_calls():
+            c = t.get("callee")
+            if c and re.search(MEMBER_MD, c):
+                out.append((h, bb, t, [self_of_call(t) or "?"], None))
+            elif not c and t.get("callee_op"):
+                items = list(fn_items_reaching(h, t["callee_op"]))
+                via = []
+                for cf, it_op, how in direct_element_sources(ds, h, t["callee_op"]):
+                    items += fn_items_reaching(cf, it_op)
+                    via.append((cf, it_op, how, only_plumbing(cf.slice(it_op), WHOLE_LIST_ITER)))
+                members = [self_of_call({"callee_args": o.get("fn_args")}) or "?" for o in items if re.search(MEMBER_MD, o["fn"])]
+                if members:
+                    out.append((h, bb, t, members, via))
+    return out
+
+
+def _member_documented(ds, md, h, bb, t, via):
+    """(the member's metadata() is given the content type metadata() itself received, the parameters it returns end up in the list
+    metadata() returns).  The second holds when the call's result is returned as it is, or when its `parameters` are appended to the list
+    stored in the returned ExtractorMetadata; for a call inside the closure of a fold over the members, when that closure appends them to
+    the accumulator's list, returns it, and the fold's result is what metadata() returns."""
+    o = Origin(ds, h, t["args"][0]) if t["args"] else None
+    okc = o is not None and o.params_of(md) == [1] and not o.bad_callees() and not o.unresolved and not o.item_params and not o.computed()
+    ret = h.slice({"l": 0, "p": []})
+    ret_sites = [(b, st) for b, i, st in h.aggregates(r"^extractor::common::ExtractorMetadata$") if st["pl"]["l"] == 0 and b in h.reachable(0)]
+    direct = any(ct is t for c, cb, ct in ret.callees) and not ret_sites
+    merged, keeps_acc = False, False
+    for b, st in ret_sites:
+        pop = agg_field_op(st, "parameters")
+        ps = h.slice(pop) if pop else None
+        plocs = ps.locals() if ps else set()
+        for abb, at in h.live_calls(APPEND):
+            s0, s1 = h.slice(at["args"][0]), h.slice(at["args"][1])
+            if (plocs & s0.locals()) and t["dest"]["l"] in s1.locals() and s1.reads_field("parameters"):
+                merged = True
+                keeps_acc = 2 in ps.params() and ps.reads_field("parameters")
+    if h is md:
+        return okc, (direct or merged) and all(how == "next" for cf, it_op, how, ex in (via or []))
+    # inside a closure: only the accumulating closure of a fold over the members is understood
+    if not via or not merged or not keeps_acc or sorted(h.slice(t["callee_op"]).params()) != [3]:
+        return okc, False
+    mret = md.slice({"l": 0, "p": []})
+    for cf, it_op, how, ex in via:
+        folds = [(fb, ft) for fb, ft in cf.live_calls(r"iter::Iterator::fold$") if any(g is h for g, node in closure_args_of_call(cf, ft))]
+        if how != "adaptor:fold" or cf is not md or len(folds) != 1 or not any(ct is folds[0][1] for c, cb, ct in mret.callees) or \
+                any(True for b, i, st in md.aggregates(r"^extractor::common::ExtractorMetadata$") if st["pl"]["l"] == 0):
+            return okc, False
+    return okc, True
 
 
 def r1_type_parameter(ctx):
@@ -157,29 +235,17 @@ def r1_type_parameter(ctx):
             continue
         body = ds.body_of(fr)
         run = sorted(self_of_call(t) or "?" for g in [body] + ds.descendants(body) for bb, t in g.live_calls(r"extractor::common::\w+Extractor::from_request$"))
-        mcalls = md.live_calls(r"extractor::common::\w+Extractor::metadata$")
-        doc = sorted(self_of_call(t) or "?" for bb, t in mcalls)
-        ctx.check(R, "members:%s" % x, run == doc, "from_request extracts %s; metadata documents %s" % (run, doc), md)
-        if not mcalls:
-            continue
+        sites = _member_sites(ds, md)
+        doc = sorted(m for h, bb, t, members, via in sites for m in members)
+        whole = all(ex for h, bb, t, members, via in sites for cf, it_op, how, ex in (via or []))
+        ctx.check(R, "members:%s" % x, run == doc and whole, "from_request extracts %s; metadata documents %s%s" % (
+            run, doc, "" if whole else " (through a list of member functions that is not iterated as a whole)"), md)
         # each member's metadata gets the endpoint's content type and its parameters reach the returned list
-        ret_sites = [(b, st) for b, i, st in md.aggregates(r"^extractor::common::ExtractorMetadata$") if st["pl"]["l"] == 0]
-        ret = md.slice({"l": 0, "p": []})
-        for bb, t in mcalls:
-            m = self_of_call(t)
-            cs = md.slice(t["args"][0])
-            okc = cs.params() == [1] and only_plumbing(cs)
-            direct = any(bb == cb for c, cb, ct in ret.calls(r"Extractor::metadata$")) and not ret_sites
-            merged = False
-            for b, st in ret_sites:
-                pop = agg_field_op(st, "parameters")
-                plocs = md.slice(pop).locals() if pop else set()
-                for abb, at in md.live_calls(r"vec::Vec::<T, A>::(append|extend)$|iter::Extend::extend$"):
-                    s0, s1 = md.slice(at["args"][0]), md.slice(at["args"][1])
-                    if (plocs & s0.locals()) and t["dest"]["l"] in s1.locals() and s1.reads_field("parameters"):
-                        merged = True
-            ctx.check(R, "member-documented:%s:%s" % (x, m), okc and (direct or merged),
-                      "metadata of member %s: receives the endpoint content type=%s; its parameters reach the returned list=%s" % (m, okc, direct or merged), (md, bb))
+        for h, bb, t, members, via in sites:
+            okc, reach = _member_documented(ds, md, h, bb, t, via)
+            for m in members:
+                ctx.check(R, "member-documented:%s:%s" % (x, m), okc and reach,
+                          "metadata of member %s: receives the endpoint content type=%s; its parameters reach the returned list=%s" % (m, okc, reach), (h, bb))
 
     # ApiEndpoint::new: the types documented are the handler's
     new = ctx.need_fn(ds, R, r"^api_description::ApiEndpoint::<Context>::new$")
@@ -251,8 +317,11 @@ def r2_location(ctx):
                 if kind == "Path":
                     ok = sl.reads_field("variables") and sl.reads_field("endpoint") and only_plumbing(sl)
                 else:
-                    ok = sl.has_call(r"^http::Uri::query$") and sl.has_call(r"RequestInfo::uri$") and \
-                        only_plumbing(sl, [r"^http::Uri::query$", r"RequestInfo::uri$", r"Option::<T>::unwrap_or$", r"Option::<T>::unwrap_or_default$"])
+                    # `x[..]` is all of x; any other index expression selects a part
+                    whole = all(re.match(r"^std::ops::RangeFull$", g.local_ty(operand_local(ct["args"][1])) or "") for c, cb, ct in sl.calls(r"ops::Index::index$"))
+                    fnitems = set(a_[1] for a_ in sl.atoms if a_[0] == "fnitem")
+                    ok = sl.has_call(r"^http::Uri::query$") and sl.has_call(r"RequestInfo::uri$") and only_plumbing(sl, QUERY_AS_IS) and whole and \
+                        all(re.search(r"str::<impl str>::as_bytes$", x) for x in fnitems) and not any(a_[0] == "agg" and "{closure" in str(a_[1]) for a_ in sl.atoms)
                 ctx.check(R, "%s:runtime-source" % kind, ok, "deserialiser input derives from %s: %s (callees %s)" % (src_desc, ok, sl.callee_names()), (g, bb))
         if not found:
             ctx.lost(R, "deserialiser call under %s::from_request" % adt)
@@ -584,8 +653,8 @@ def r4_response(ctx):
         x = im["self"]
         f = froms.get(x)
         cs_ = [(bb, t) for bb, t in f.live_calls() if (t.get("callee") or "").endswith("handler::HttpCodedResponse::for_object")] if f else []
-        own = len(cs_) == 1 and self_of_call(cs_[0][1]) == x
-        ctx.check(R, "from-impl:%s" % x, own, "From<%s> converts with <%s>::for_object" % (x, self_of_call(cs_[0][1]) if cs_ else None), f)
+        own = len(cs_) == 1 and _self_ty(cs_[0][1]) == x
+        ctx.check(R, "from-impl:%s" % x, own, "From<%s> converts with <%s>::for_object" % (x, _self_ty(cs_[0][1]) if cs_ else None), f)
     # HttpResponseHeaders delegates both sides to T
     hm = ctx.need_fn(ds, R, r"^<handler::HttpResponseHeaders<T, H> as handler::HttpResponse>::response_metadata$")
     hr = ctx.need_fn(ds, R, r"^<handler::HttpResponseHeaders<T, H> as handler::HttpResponse>::to_result$")
@@ -625,18 +694,30 @@ def r4_response(ctx):
                 k = "const:" + MEDIA_JSON
             else:
                 k = "lit:" + ",".join(sorted(lit_strs(ks)))
-            kinds.setdefault(k, []).append((g, bb, vs))
+            # role of the map written to: it becomes the content of the Response stored in a shared error response (the carrier struct),
+            # or of a Response of the operation itself — wherever the insertion sits (closure, gen_openapi proper, an inlined constructor)
+            m = borrow_root(g, t["args"][0])
+            role = "operation"
+            for b_, i_, st_ in g.aggregates(ERROR_RESPONSE_ADT):
+                rop_ = agg_field_op(st_, "response") if ERROR_RESPONSE_FIELDS == set(st_["rv"].get("fields") or []) else None
+                if rop_ is not None and m is not None and m in g.slice(rop_).locals():
+                    role = "shared-error"
+            kinds.setdefault(k, []).append((g, bb, role))
     ctx.notes["C07.media_type_keys"] = {k: len(v) for k, v in kinds.items()}
     ctx.check(R, "gen_openapi:media-type-census", sorted((k, len(v)) for k, v in kinds.items()) ==
               [("const:" + MEDIA_JSON, 2), ("lit:*/*", 1), ("request:mime_type()", 1)],
               "MediaType insert keys: %s (want: typed response + error response keyed by CONTENT_TYPE_JSON, free-form response by */*, request body by mime_type())" % {k: len(v) for k, v in kinds.items()}, go)
-    typed = [(g, bb) for g, bb, vs in kinds.get("const:" + MEDIA_JSON, []) if g is go]
-    ctx.check(R, "gen_openapi:typed-response-key-is-json-const", len(typed) == 1, "typed-response content key uses %s at %d site(s) in gen_openapi" % (MEDIA_JSON, len(typed)), go)
+    json_roles = sorted(role for g, bb, role in kinds.get("const:" + MEDIA_JSON, []))
+    ctx.check(R, "gen_openapi:typed-response-key-is-json-const", json_roles == ["operation", "shared-error"] and
+              all(role == "operation" for k, v in kinds.items() if k != "const:" + MEDIA_JSON for g, bb, role in v),
+              "content maps keyed by %s: %s (want one for the operation's typed response and one for the shared error response)" % (MEDIA_JSON, json_roles), go)
     jt = ctx.need_fn(ds, R, r"^<T as handler::HttpResponseContent>::to_response$")
     sent = set()
-    for bb, t in jt.live_calls(r"http::response::Builder::header$"):
-        if op_const_path(jt, t["args"][1]) == "http::header::CONTENT_TYPE":
-            sent.add(op_const_path(jt, t["args"][2]))
+    # wherever the header is set: in to_response itself or in a closure of it (`serialise(..).and_then(|bytes| builder.header(..)..)`)
+    for g in [jt] + ds.descendants(jt):
+        for bb, t in g.live_calls(r"http::response::Builder::header$"):
+            if op_const_path(g, t["args"][1]) == "http::header::CONTENT_TYPE":
+                sent.add(op_const_path(g, t["args"][2]))
     ctx.check(R, "json:sent-content-type-is-documented-constant", sent == {MEDIA_JSON} and const_val(ds, MEDIA_JSON) == "application/json",
               "JSON to_response sends CONTENT_TYPE = %s; document key constant %s = %r" % (sorted(x or "?" for x in sent), MEDIA_JSON, const_val(ds, MEDIA_JSON)), jt)
 
@@ -686,20 +767,32 @@ def r5_error_schema(ctx):
                 keys.add(v["str"])
     ctx.check(R, "wire-names-are-field-names", len(sers) == 1 and keys == set(fields), "keys written by Serialize: %s; struct fields: %s" % (sorted(keys), sorted(fields)), sers[0] if sers else None)
     js = ctx.need_fn(ds, R, r"^<error::HttpErrorResponseBody as schemars::JsonSchema>::json_schema$")
-    ov = [(b, st) for b, i, st in js.aggregates(r"^schemars::schema::ObjectValidation$") if b in js.reachable(0)]
-    if len(ov) != 1:
-        ctx.lost(R, "ObjectValidation aggregate in the hand-written schema")
-        return
-    b, st = ov[0]
-    req = lit_strs(js.slice(agg_field_op(st, "required")))
-    props = lit_strs(js.slice(agg_field_op(st, "properties")))
     want_req = set(n for n, ty in fields.items() if not ty.startswith("std::option::Option<"))
-    ctx.check(R, "schema-properties", props == keys, "schema properties %s; serialised fields %s" % (sorted(props), sorted(keys)), (js, b))
-    ctx.check(R, "schema-required", req == want_req, "schema required %s; non-Option fields %s (these are always present in the body)" % (sorted(req), sorted(want_req)), (js, b))
-    ret = js.slice({"l": 0, "p": []})
-    ctx.check(R, "schema-is-an-object-with-that-validation", any(a_[0] == "agg" and a_[1] == "schemars::schema::ObjectValidation" for a_ in ret.atoms) and
-              any(a_[0] == "agg" and a_[1] == "schemars::schema::InstanceType" and a_[2] == "Object" for a_ in ret.atoms),
-              "json_schema returns a SchemaObject{instance_type: Object, object: that validation}", js)
+    # the schema is read off the value json_schema returns, by interpretation: a struct literal over `[..].into_iter().collect()`, field
+    # assignments / inserts on a default value, a loop over a constant (name, required) table are the same value.  Only when the function
+    # leaves the interpretable fragment are the literals of the ObjectValidation literal used instead.
+    try:
+        dec = decide_object_schema(ds, js)
+        how = "interpreted"
+        req, props = dec["required"], dec["properties"]
+        is_object = dec["instance_types"] == {"Object"}
+        b = 0
+    except _A.LeavesFragment as e:
+        how = "literals of the ObjectValidation aggregate (not interpretable: %s)" % e
+        ov = [(b, st) for b, i, st in js.aggregates(r"^schemars::schema::ObjectValidation$") if b in js.reachable(0)]
+        if len(ov) != 1:
+            ctx.lost(R, "ObjectValidation aggregate in the hand-written schema")
+            return
+        b, st = ov[0]
+        req = lit_strs(js.slice(agg_field_op(st, "required")))
+        props = lit_strs(js.slice(agg_field_op(st, "properties")))
+        ret = js.slice({"l": 0, "p": []})
+        is_object = any(a_[0] == "agg" and a_[1] == "schemars::schema::ObjectValidation" for a_ in ret.atoms) and \
+            any(a_[0] == "agg" and a_[1] == "schemars::schema::InstanceType" and a_[2] == "Object" for a_ in ret.atoms)
+    ctx.notes["C07.error_schema_decided_by"] = how
+    ctx.check(R, "schema-properties", props == keys, "schema properties %s; serialised fields %s [%s]" % (sorted(props), sorted(keys), how), (js, b))
+    ctx.check(R, "schema-required", req == want_req, "schema required %s; non-Option fields %s (these are always present in the body) [%s]" % (sorted(req), sorted(want_req), how), (js, b))
+    ctx.check(R, "schema-is-an-object-with-that-validation", is_object, "json_schema returns a SchemaObject{instance_type: Object, object: that validation} [%s]" % how, js)
 
 
 # ----------------------------------------------------------------------------- R6
@@ -892,6 +985,50 @@ def r6_required(ctx):
         ctx.lost(R, "ApiEndpointHeader construction under HttpResponseHeaders::response_metadata")
 
 
+def _fnitem_generics(ds, g):
+    """For the synthetic closure the engine makes of a generic helper passed as a function value (`.map_err(helper::<E>)`): the generic
+    arguments the helper was named with, read off the type of the function item in the generic arguments of the call that takes it
+    (`FnDef(DefId(.. helper), [E])`).  The closure's body still speaks of the helper's own type parameters `Name/#i`; apply() rewrites a
+    rendered type to the caller's.  None when g is not such a closure or the instantiation cannot be found (nothing is rewritten then).
+    (Engine gap, see the report: _inline_unknown_helpers substitutes generics for inlined calls but not for function-value closures.)"""
+    so = g.raw.get("synthetic_of")
+    if not so:
+        return None
+    rx = re.compile(r"^FnDef\(DefId\([^)]*::%s\), \[(.*)\]\)$" % re.escape(so))
+    found = []
+    for h, st in closure_captures(ds, g):
+        for bb, t in h.live_calls():
+            if any(c is g for c, node in closure_args_of_call(h, t)):
+                for ga in t.get("gargs") or []:
+                    m = rx.match(ga)
+                    if m:
+                        found.append(_split_top_level(m.group(1)))
+    return found[0] if len(found) == 1 else None
+
+
+def _split_top_level(s):
+    out, depth, cur = [], 0, ""
+    for ch in s:
+        if ch in "(<[{":
+            depth += 1
+        elif ch in ")>]}":
+            depth -= 1
+        if ch == "," and depth == 0:
+            out.append(cur.strip())
+            cur = ""
+        else:
+            cur += ch
+    if cur.strip():
+        out.append(cur.strip())
+    return out
+
+
+def _apply_generics(args, ty):
+    if not args:
+        return ty
+    return re.sub(r"\b\w+/#(\d+)", lambda m: args[int(m.group(1))] if int(m.group(1)) < len(args) else m.group(0), ty)
+
+
 def r7_framework_errors_use_endpoint_error_type(ctx):
     """Added after adversary change C07-B: the document describes an operation's 4xx/5xx with the
     endpoint's declared error type, so every framework-generated HttpError on the endpoint's
@@ -909,8 +1046,9 @@ def r7_framework_errors_use_endpoint_error_type(ctx):
         n_conv = 0
         via_endpoint_type = False
         for g in fns:
+            inst = _fnitem_generics(ctx.ds, g)
             for bb, t in g.live_calls(r"convert::From::from$|ops::FromResidual::from_residual$|convert::Into::into$"):
-                ga = list(t.get("gargs", []))
+                ga = [_apply_generics(inst, x) for x in t.get("gargs", [])]
                 if len(ga) < 2:
                     continue
                 if (t.get("callee") or "").endswith("convert::Into::into"):
@@ -959,7 +1097,10 @@ def r9_error_reference_names_the_stored_response(ctx):
                  "gen_openapi the name interpolated into `#/components/responses/{..}` is the value stored as the entry's name, and that name is the key the entry is published under", floor=3)
     ds = ctx.ds
     g = ctx.need_fn(ds, R, r"^api_description::ApiDescription::<Context>::gen_openapi$")
-    sites = [(f, bb, st) for f in [g] + ds.descendants(g) for bb, i, st in f.aggregates(r"gen_openapi::ErrorResponse$") if bb in f.reachable(0)]
+    # the carrier struct is anchored by its role (the struct of module api_description with fields name / reference / response whose values are
+    # built under gen_openapi), not by where it is declared: function-local, or module-level with a constructor that is inlined here
+    sites = [(f, bb, st) for f in [g] + ds.descendants(g) for bb, i, st in f.aggregates(ERROR_RESPONSE_ADT) if bb in f.reachable(0)
+             and ERROR_RESPONSE_FIELDS == set(st["rv"].get("fields") or [])]
     ctx.check(R, "error-response-sites", len(sites) >= 1, "ErrorResponse values built under gen_openapi: %d" % len(sites), g, nontrivial=False)
     for f, bb, st in sites:
         name_p = access_path(f, agg_field_op(st, "name"), VALUE_PRESERVING)
@@ -994,6 +1135,16 @@ RULES = [("C07.R9", r9_error_reference_names_the_stored_response), ("C07.R8", r8
 
 A = "dropshot/src/api_description.rs"
 H = "dropshot/src/handler.rs"
+_FROM_MIME_MATCH = ("        match mime_type {\n            CONTENT_TYPE_OCTET_STREAM => Ok(Self::Bytes),\n            CONTENT_TYPE_JSON => Ok(Self::Json),\n            CONTENT_TYPE_URL_ENCODED => Ok(Self::UrlEncoded),\n"
+                    "            CONTENT_TYPE_MULTIPART_FORM_DATA => Ok(Self::MultipartFormData),\n            _ => Err(mime_type.to_string()),\n        }")
+_FROM_MIME_TABLE = ("        const BY_MIME_TYPE: [(&str, ApiEndpointBodyContentType); 4] = [\n            (CONTENT_TYPE_OCTET_STREAM, ApiEndpointBodyContentType::Bytes),\n"
+                    "            (CONTENT_TYPE_JSON, ApiEndpointBodyContentType::%s),\n            (CONTENT_TYPE_URL_ENCODED, ApiEndpointBodyContentType::UrlEncoded),\n"
+                    "            (CONTENT_TYPE_MULTIPART_FORM_DATA, ApiEndpointBodyContentType::MultipartFormData),\n        ];\n"
+                    "        BY_MIME_TYPE\n            .iter()\n            .find_map(|(known, content_type)| (*known == mime_type).then(|| content_type.clone()))\n"
+                    "            .ok_or_else(|| mime_type.to_string())")
+_FROM_DELETED = "impl From<HttpResponseDeleted> for HttpHandlerResult {\n    fn from(_: HttpResponseDeleted) -> HttpHandlerResult {\n        HttpResponseDeleted::for_object(Empty)\n"
+_FROM_DELETED_GENERIC = ("fn coded_without_body<R: HttpCodedResponse<Body = Empty>>() -> HttpHandlerResult {\n    R::for_object(Empty)\n}\n"
+                         "impl From<HttpResponseDeleted> for HttpHandlerResult {\n    fn from(_: HttpResponseDeleted) -> HttpHandlerResult {\n        coded_without_body::<%s>()\n")
 SELFTEST = [
     {"name": "path-documents-query-location", "kind": "mutant", "expect": ["C07.R2"],
      "edits": [("dropshot/src/extractor/path.rs", "get_metadata::<PathType>(&ApiEndpointParameterLocation::Path)", "get_metadata::<PathType>(&ApiEndpointParameterLocation::Query)")],
@@ -1121,6 +1272,46 @@ SELFTEST = [
     {"name": "load_body-guard-requests-other-type", "kind": "mutant", "expect": ["C07.R3"],
      "edits": [("dropshot/src/extractor/body.rs", "        (Json, Json) => {", "        (Json, requested) if matches!(requested, UrlEncoded) => {")],
      "why": "same defect as urlencoded-arm-expects-json in the guard idiom: the JSON deserialiser runs on bodies announced as url-encoded and JSON bodies are refused by an endpoint documented as JSON"},
+    # ---- round 3: idioms accepted after the deep refactorings, each with a mutant written in the same idiom
+    {"name": "query-from_bytes", "kind": "benign",
+     "edits": [("dropshot/src/extractor/query.rs", "    match serde_urlencoded::from_str(raw_query_string) {", "    match serde_urlencoded::from_bytes(raw_query_string.as_bytes()) {")],
+     "why": "behaviour-preserving: serde_urlencoded::from_str(s) is from_bytes(s.as_bytes()); the deserialiser is anchored by its role and its input is still the URI's query string as it is"},
+    {"name": "from_mime_type-const-table", "kind": "benign", "edits": [(A, _FROM_MIME_MATCH, _FROM_MIME_TABLE % "Json")],
+     "why": "behaviour-preserving: the match on string constants written as find_map over a constant table of (media type, content type) pairs; a constant table is an array literal to the interpreter"},
+    {"name": "from_mime_type-const-table-wrong-row", "kind": "mutant", "expect": ["C07.R3"], "edits": [(A, _FROM_MIME_MATCH, _FROM_MIME_TABLE % "UrlEncoded")],
+     "why": "the table maps application/json to UrlEncoded: endpoints declared as JSON are documented and served as url-encoded"},
+    {"name": "from-impl-through-generic-helper", "kind": "benign", "edits": [(H, _FROM_DELETED, _FROM_DELETED_GENERIC % "HttpResponseDeleted")],
+     "why": "behaviour-preserving: the conversion goes through a generic helper instantiated at the response's own type (the engine inlines it and substitutes its type parameter)"},
+    {"name": "from-impl-through-generic-helper-other-type", "kind": "mutant", "expect": ["C07.R4"], "edits": [(H, _FROM_DELETED, _FROM_DELETED_GENERIC % "HttpResponseFoundStatus")],
+     "why": "the generic helper is instantiated at another response type: documented 204, served 302"},
+    {"name": "tuple-fold-list-lacks-exclusive-member", "kind": "mutant", "expect": ["C07.R1"], "patch": "benign/C07-R9/patch.diff",
+     "edits": [("dropshot/src/extractor/common.rs", "                <X as ExclusiveExtractor>::metadata,\n            ];", "            ];")],
+     "why": "fold-over-member-functions idiom (benign-C07-R9): the list of members' metadata functions lacks the exclusive extractor, so the body parameter is extracted but not documented"},
+    {"name": "tuple-fold-merge-drops-parameters", "kind": "mutant", "expect": ["C07.R1"], "patch": "benign/C07-R9/patch.diff",
+     "edits": [("dropshot/src/extractor/common.rs", "        parameters.extend(next.parameters);\n", "")],
+     "why": "fold-over-member-functions idiom: the merge step keeps the extension mode but drops every member's parameters"},
+    {"name": "tuple-fold-skips-first-member", "kind": "mutant", "expect": ["C07.R1"], "patch": "benign/C07-R9/patch.diff",
+     "edits": [("dropshot/src/extractor/common.rs", "members.iter().fold(", "members.iter().skip(1).fold(")],
+     "why": "fold-over-member-functions idiom: the list is not iterated as a whole, the first shared extractor is not documented"},
+    {"name": "error-schema-table-request_id-optional", "kind": "mutant", "expect": ["C07.R5"], "patch": "benign/C07-R11/patch.diff",
+     "edits": [("dropshot/src/error.rs", "(\"request_id\", true)]", "(\"request_id\", false)]")],
+     "why": "constant-table idiom (benign-C07-R11): same defect as error-schema-request_id-optional, decided by interpreting json_schema"},
+    {"name": "error-schema-table-required-inverted", "kind": "mutant", "expect": ["C07.R5"], "patch": "benign/C07-R11/patch.diff",
+     "edits": [("dropshot/src/error.rs", "            if is_required {", "            if !is_required {")],
+     "why": "constant-table idiom: the loop lists exactly the optional property as required"},
+    {"name": "load_body-negotiated-format-swapped", "kind": "mutant", "expect": ["C07.R3"], "patch": "benign/C09-R10/patch.diff",
+     "edits": [("dropshot/src/extractor/body.rs", "            (Json, Json) => Some(TypedBodyFormat::Json),", "            (Json, Json) => Some(TypedBodyFormat::UrlEncoded),"),
+               ("dropshot/src/extractor/body.rs", "            (UrlEncoded, UrlEncoded) => Some(TypedBodyFormat::UrlEncoded),", "            (UrlEncoded, UrlEncoded) => Some(TypedBodyFormat::Json),")],
+     "why": "private-format-enum idiom (benign-C09-R10): the decision travels as the payload of an Option of a private enum; JSON endpoints run the url-encoded deserialiser and vice versa"},
+    {"name": "query-from_raw_query-reads-path", "kind": "mutant", "expect": ["C07.R2"], "patch": "benign/C09-R12/patch.diff",
+     "edits": [("dropshot/src/extractor/query.rs", "Query::from_raw_query(request.uri().query())", "Query::from_raw_query(Some(request.uri().path()))")],
+     "why": "from_raw_query idiom (benign-C09-R12): parameters documented as query parameters are read from the path"},
+    {"name": "handler_error_via-HttpError", "kind": "mutant", "expect": ["C07.R7"], "patch": "benign/C13-R10/patch.diff",
+     "edits": [(H, "response.to_result().map_err(handler_error_via::<ErrorType>)", "response.to_result().map_err(handler_error_via::<HttpError>)")],
+     "why": "named-generic-conversion idiom (benign-C13-R10): the helper is instantiated at HttpError, so a failed response conversion bypasses the endpoint's declared error type"},
+    {"name": "error-response-ctor-renames-entry", "kind": "mutant", "expect": ["C07.R9"], "patch": "benign/C06-R9/patch.diff",
+     "edits": [(A, "        ErrorResponse { name, reference, response }\n    }", "        ErrorResponse { name: format!(\"{name}Error\"), reference, response }\n    }")],
+     "why": "module-level carrier with constructor (benign-C06-R9): the entry is published under another name than the one the operations' $ref interpolates"},
     {"name": "load_body-inline-expected", "kind": "benign",
      "edits": [("dropshot/src/extractor/body.rs", "    let expected_content_type = rqctx.endpoint.body_content_type.clone();\n", ""),
                ("dropshot/src/extractor/body.rs", "    let content = match (expected_content_type, body_content_type) {", "    let content = match (rqctx.endpoint.body_content_type.clone(), body_content_type) {")],
